@@ -1574,3 +1574,86 @@ func winnerSends(p *load.Prog, r *oblig.Run, rule string) {
 		r.Add(rule, "sends", p.Pos(cw.Pos()), "anchor").Unknown("calculateWinners sends nothing")
 	}
 }
+
+// flagLast (R11.n): a lazily filled cache of a node is published by its flag. In every function of the library
+// package that sets a boolean field of an object to true and also fills other fields of that same object, no such
+// fill can happen after the flag was set: otherwise a reader that sees the flag (another worker of Compare or of
+// the publisher - the fills themselves are unsynchronised, see R11.a/R19.e) takes the still-empty value for the
+// cached one (a zero date range scores 0 against an identical date; a nil husband is "no husband").
+func flagLast(p *load.Prog, r *oblig.Run, rule string) {
+	r.Rule(rule, "a lazily filled cache sets its 'filled' flag only after the cached value was stored (no fill of the same object after the flag)", 3)
+	n := 0
+	for _, fn := range p.Repo {
+		if pkgPathOf(fn) != load.PkgRoot {
+			continue
+		}
+		env := &descEnv{p: p, params: map[*ssa.Parameter]string{}}
+		type st struct {
+			ins   *ssa.Store
+			base  string
+			field string
+			flag  bool
+		}
+		var stores []st
+		for _, b := range fn.Blocks {
+			for _, ins := range b.Instrs {
+				s, ok := ins.(*ssa.Store)
+				if !ok {
+					continue
+				}
+				fa, ok := s.Addr.(*ssa.FieldAddr)
+				if !ok {
+					continue
+				}
+				if _, isAl := fa.X.(*ssa.Alloc); isAl {
+					continue // a literal under construction
+				}
+				isFlag := false
+				if k, isK := s.Val.(*ssa.Const); isK && k.Value != nil && k.Value.ExactString() == "true" {
+					isFlag = true
+				}
+				stores = append(stores, st{s, env.desc(fa.X, 0), su.FieldName(fa), isFlag})
+			}
+		}
+		for _, f := range stores {
+			if !f.flag {
+				continue
+			}
+			var fills []st
+			for _, v := range stores {
+				if !v.flag && v.base == f.base && v.field != f.field {
+					fills = append(fills, v)
+				}
+			}
+			if len(fills) == 0 {
+				continue
+			}
+			n++
+			o := r.Add(rule, fmt.Sprintf("flag %s in %s", f.field, load.FuncName(fn)), p.Pos(f.ins.Pos()), "order of the flag and the cached value")
+			bad := ""
+			for _, v := range fills {
+				after := false
+				if v.ins.Block() == f.ins.Block() {
+					after = su.Dominates(f.ins, v.ins) && f.ins != v.ins
+				} else {
+					for _, sx := range f.ins.Block().Succs {
+						if su.ReachableBlocks(sx)[v.ins.Block()] {
+							after = true
+						}
+					}
+				}
+				if after {
+					bad = "the field " + v.field + " is stored at " + p.Pos(v.ins.Pos()) + " after the flag " + f.field + " was set"
+				}
+			}
+			if bad != "" {
+				o.Fail(bad + ": between the two stores another goroutine that finds the flag set returns the still-empty cached value (identical dates score 0, a family has no husband) - the result depends on the schedule")
+			} else {
+				o.OK("the flag is the last store to the object")
+			}
+		}
+	}
+	if n == 0 {
+		r.Add(rule, "flagged caches", "-", "anchor").Unknown("no flagged lazy cache found in the library package")
+	}
+}
